@@ -7,7 +7,7 @@ EXPLANATION = ('Decides structural necessary conditions of C11 on the MIR of the
                'exclusive system lock (or a guard downgraded from it), index allocation has no suspension point, counters advance only '
                'with a successful append, the loader pushes an entry only after the continuity and checksum tests, every serialised '
                'field is covered by the checksum, lengths read from the file are bounded before they size an allocation, and a tokio '
-               'file that was written is flushed/synced before it is dropped. Not decided: behaviour under every interleaving/fault, CRC strength.')
+               'file that was written is flushed/synced before it is dropped. Also: nothing interprets the content of an entry (command decoder, entry constructor, formatter) before its checksum was found equal; the expected index of the first entry is 0; the decryptor that corrupt encrypted bytes reach unverified has no unguarded may-panic site. Not decided: behaviour under every interleaving/fault, CRC strength.')
 ASSUMPTIONS = ['tokio RwLock write guard excludes all other guards; downgrade() is atomic',
                'tokio::fs::File completes writes in a background task unless flush()/sync_all() is awaited',
                'rustc MIR (mir_promoted) faithfully represents control flow and calls']
